@@ -297,7 +297,8 @@ fn c10_resynchronisation() {
     let mut rng = Rng(0xdeadbeefcafef00d ^ seed);
     let cfgs: Vec<Cfg> = configs().into_iter().filter(|c| c.algo != Algo::Fixed).collect();
     let mut cases = 0;
-    for _ in 0..6000 {
+    let rounds: usize = std::env::var("VERIF_COMPANION_CASES").ok().and_then(|s| s.parse().ok()).map(|n: usize| (n / 6).max(6000)).unwrap_or(6000);
+    for _ in 0..rounds {
         let c = &cfgs[rng.below(cfgs.len() as u64) as usize];
         let mk = |rng: &mut Rng, n: usize| -> Vec<u8> {
             let mut v = vec![];
@@ -339,7 +340,8 @@ fn c10_large_window_resynchronisation() {
     for (algo, w) in [(Algo::BuzHash, 31usize), (Algo::BuzHash, 32), (Algo::BuzHash, 33), (Algo::BuzHash, 64), (Algo::BuzHash, 100), (Algo::RollSum, 64), (Algo::RollSum, 300)] {
         for (bits, min, max) in [(4u32, 0usize, 4000usize), (5, 20, 500), (3, w, 2 * w + 50)] {
             let c = Cfg { algo, bits, min, max, w };
-            for _ in 0..12 {
+            let pairs = if std::env::var("VERIF_COMPANION_DEEP").is_ok() { 120 } else { 12 };
+            for _ in 0..pairs {
                 let n1 = rng.below(3 * w as u64) as usize;
                 let n2 = rng.below(3 * w as u64) as usize;
                 let p1: Vec<u8> = (0..n1).map(|_| rng.below(256) as u8).collect();
